@@ -265,19 +265,23 @@ def rule_raw_sites(ck, px):
 
 
 def _owner(recv: ast.AST):
-    """For ``X.body.generate`` / ``X.file.body.generate``: (root name, expression text of the Template that owns
-    the body)."""
-    d = q.dotted(recv)
-    if not d:
+    """For ``X.body.generate`` / ``X.file.body.generate``: (root text, expression text of the Template that owns
+    the body).  ``X`` may be any expression (e.g. a loader call that was not given a name)."""
+    chain = []
+    e = recv
+    while isinstance(e, ast.Attribute):
+        chain.append(e)
+        e = e.value
+    if not chain:
         return None
-    parts = d.split(".")
-    root = parts[0]
-    if root == "self" or len(parts) == 1:
+    if isinstance(e, ast.Name) and e.id == "self":
         return None
-    if "file" in parts[1:]:
-        i = parts.index("file")
-        return root, ".".join(parts[:i])
-    return root, root + ".template"
+    for a in chain:
+        if a.attr == "file":
+            return q.unparse(e), q.unparse(a.value)
+    if isinstance(e, ast.Name):
+        return e.id, e.id + ".template"
+    return None
 
 
 def _popped_index(fi, v, stack, norm=None):
@@ -363,7 +367,7 @@ def rule_include_scope(ck):
                 src = single_assignment(f.node, recv.id)
                 if src is not None and q.dotted(src):
                     recv = src
-            d = q.dotted(recv) or ""
+            d = q.dotted(recv) or q.unparse(recv)
             if d.startswith("self."):
                 continue  # own child: same file
             own = _owner(recv)
